@@ -86,7 +86,46 @@ type vsSide struct {
 	tap          []vsWire
 	onClose      int
 	closeBegun   bool // the harness called Close on this side's session
+	rcClose      int  // IOTransport: Close calls on the Reader half handed to the transport
+	wcClose      int  // IOTransport: Close calls on the Writer half
 	closeBegunSeq int
+}
+
+// vsPipeReader / vsPipeWriter: the two halves a user hands to IOTransport, each counting its Close
+// calls. The Writer's Close can be made to FAIL (after closing the pipe: a writer that flushes on Close
+// when the peer has stopped reading, a writer that was already closed): "writes start failing midway"
+// includes the last one.
+type vsPipeReader struct {
+	io.ReadCloser
+	s *vsSide
+}
+
+func (p *vsPipeReader) Close() error {
+	p.s.c.mu.Lock()
+	p.s.rcClose++
+	p.s.c.trLocked("%s READER HALF CLOSE", vsSideName[p.s.who])
+	p.s.c.mu.Unlock()
+	return p.ReadCloser.Close()
+}
+
+type vsPipeWriter struct {
+	io.WriteCloser
+	s    *vsSide
+	fail bool
+}
+
+var errVsCloseFail = errors.New("close |1: flush failed: broken pipe (verif fault)")
+
+func (p *vsPipeWriter) Close() error {
+	p.s.c.mu.Lock()
+	p.s.wcClose++
+	p.s.c.trLocked("%s WRITER HALF CLOSE (fails: %v)", vsSideName[p.s.who], p.fail)
+	p.s.c.mu.Unlock()
+	err := p.WriteCloser.Close()
+	if p.fail {
+		return errVsCloseFail
+	}
+	return err
 }
 
 type vsTransport struct {
@@ -372,9 +411,22 @@ type vsCfg struct {
 	hsFault   string // fault armed before Connect ("" = none)
 	nact      int
 	faultBudget int
+	// axes added later draw from their own generator (vsRng2), so that the cases of a given (seed, idx)
+	// keep their earlier shape
+	wcloseFail [2]bool // pipe transport: Close of this side's Writer half returns an error
+	subPark    bool    // the server's SubscribeHandler parks (released like a parked tool handler)
+	viaRun     bool    // the server side is started with Server.Run(ctx, transport) instead of Server.Connect
+	runCtxClose bool   // viaRun: the harness's server-side Close cancels Run's context (Run then closes the session) instead of calling ServerSession.Close
 }
 
 type vsCase struct {
+	// counters recorded for the typed Lean monitor (rec)
+	runCancel                    context.CancelFunc
+	runDone                      chan struct{}
+	runReturned                  bool // guarded by mu
+	recHang, recJudged           bool // recJudged: judge() ran (the counters are final)
+	recSsess, recCsess, recSubs int
+	nsubh int // SubscribeHandler invocations (guarded by mu)
 	nCancelChecks int // cancellations judged so far in this case
 	seed int64
 	idx  int
@@ -424,6 +476,10 @@ type vsCase struct {
 	cbWaiting int  // tool handlers currently inside a (bounded) callback into the client
 	stopped   bool // forceCleanup has begun: programs stop issuing further steps
 	listenIDsAtClose map[string]bool // ids registered in ss.listenIDs when the harness called ServerSession.Close
+}
+
+func vsRng2(seed int64, idx int) *rand.Rand {
+	return rand.New(rand.NewSource(seed*1000033 + 9100000 + int64(idx)))
 }
 
 func vsRng(seed int64, idx int) *rand.Rand {
@@ -664,6 +720,23 @@ func (c *vsCase) serverCall(ctx context.Context, ss *ServerSession, kind, tok st
 		return s, nil
 	}
 	return "", fmt.Errorf("verif: unknown server call %q", kind)
+}
+
+// serverSubscribe is the server's SubscribeHandler (resources/subscribe, and every URI of a
+// subscriptions/listen): user code that runs INSIDE the listen handler before it parks. With cfg.subPark
+// it parks on a gate like a tool handler (released by a release action, by its context or at the end).
+func (c *vsCase) serverSubscribe(ctx context.Context, req *SubscribeRequest) error {
+	if !c.cfg.subPark {
+		return nil
+	}
+	c.mu.Lock()
+	c.nsubh++
+	tok := fmt.Sprintf("subh%d", c.nsubh)
+	c.mu.Unlock()
+	h := c.enter(vsServer, "subscribe", tok, ctx)
+	defer c.exit(h)
+	c.hold(h, vsBeh{}, true)
+	return nil
 }
 
 func (c *vsCase) serverProgress(ctx context.Context, req *ProgressNotificationServerRequest) {
@@ -944,6 +1017,31 @@ func (c *vsCase) genCfg() {
 		lst = "1"
 	}
 	c.desc = append(c.desc, "tr="+tr, "v="+c.cfg.version, "lc="+lst, "ka="+ka)
+	r2 := vsRng2(c.seed, c.idx)
+	if c.cfg.pipe {
+		for i := range c.cfg.wcloseFail {
+			if c.cfg.wcloseFail[i] = r2.Intn(3) == 0; c.cfg.wcloseFail[i] {
+				c.desc = append(c.desc, "wcf="+vsSideName[i][:1])
+				c.tag("writer-close-fails")
+			}
+		}
+	} else {
+		r2.Intn(3)
+		r2.Intn(3)
+	}
+	if c.cfg.subPark = r2.Intn(5) == 0; c.cfg.subPark {
+		c.desc = append(c.desc, "subpark")
+		c.tag("subscribe-handler-parks")
+	}
+	if c.cfg.viaRun = r2.Intn(4) == 0 && c.cfg.hsFault == ""; c.cfg.viaRun { // (a session that dies during the handshake has left Server.Sessions() before the harness can pick it up)
+		c.cfg.runCtxClose = r2.Intn(2) == 0
+		c.desc = append(c.desc, "run")
+		c.tag("server-run")
+		if c.cfg.runCtxClose {
+			c.desc = append(c.desc, "runctx")
+			c.tag("server-run-ctx-cancel")
+		}
+	}
 	c.tag("tr=" + tr)
 	c.tag("v=" + c.cfg.version)
 	c.tag("ka=" + ka)
@@ -1163,7 +1261,7 @@ func (c *vsCase) setup() {
 	}
 	sopts := &ServerOptions{
 		ProgressNotificationHandler: c.serverProgress,
-		SubscribeHandler:            func(context.Context, *SubscribeRequest) error { return nil },
+		SubscribeHandler:            c.serverSubscribe,
 		UnsubscribeHandler:          func(context.Context, *UnsubscribeRequest) error { return nil },
 		KeepAlive:                   c.cfg.kaServer,
 	}
@@ -1192,8 +1290,8 @@ func (c *vsCase) setup() {
 	if c.cfg.pipe {
 		c2sR, c2sW := io.Pipe()
 		s2cR, s2cW := io.Pipe()
-		ct = &IOTransport{Reader: s2cR, Writer: c2sW}
-		st = &IOTransport{Reader: c2sR, Writer: s2cW}
+		ct = &IOTransport{Reader: &vsPipeReader{s2cR, c.side[vsClient]}, Writer: &vsPipeWriter{c2sW, c.side[vsClient], c.cfg.wcloseFail[vsClient]}}
+		st = &IOTransport{Reader: &vsPipeReader{c2sR, c.side[vsServer]}, Writer: &vsPipeWriter{s2cW, c.side[vsServer], c.cfg.wcloseFail[vsServer]}}
 		c.raw = []io.Closer{c2sR, c2sW, s2cR, s2cW}
 	} else {
 		a, b := net.Pipe()
@@ -1203,11 +1301,40 @@ func (c *vsCase) setup() {
 	if c.cfg.hsFault != "" {
 		c.armFault(c.cfg.hsFault)
 	}
-	ss, err := c.server.Connect(context.Background(), &vsTransport{inner: st, side: c.side[vsServer]},
-		&ServerSessionOptions{onClose: func() { c.mu.Lock(); c.side[vsServer].onClose++; c.mu.Unlock() }})
-	if err != nil {
-		c.viol("C05: Server.Connect failed: %v", err)
-		return
+	srvOnClose := func() { c.mu.Lock(); c.side[vsServer].onClose++; c.mu.Unlock() }
+	var ss *ServerSession
+	if c.cfg.viaRun {
+		// Server.Run: connects, then returns when the session has ended or (after closing it) when ctx ends
+		runCtx, cancel := context.WithCancel(context.Background())
+		c.runCancel = cancel
+		c.runDone = make(chan struct{})
+		go func() {
+			err := c.server.Run(runCtx, &vsTransport{inner: st, side: c.side[vsServer]})
+			c.mu.Lock()
+			c.runReturned = true
+			c.trLocked("Server.Run RETURN %v", err)
+			c.mu.Unlock()
+			close(c.runDone)
+		}()
+		synctest.Wait()
+		for s := range c.server.Sessions() {
+			ss = s
+		}
+		if ss == nil {
+			c.viol("C05: Server.Run did not connect its session")
+			return
+		}
+		// Run passes no onClose; as on the client side the once-only logic of Close is observed with an
+		// injected counter (the peer is not connected yet: no other goroutine uses the session)
+		ss.onClose = srvOnClose
+	} else {
+		var err error
+		ss, err = c.server.Connect(context.Background(), &vsTransport{inner: st, side: c.side[vsServer]},
+			&ServerSessionOptions{onClose: srvOnClose})
+		if err != nil {
+			c.viol("C05: Server.Connect failed: %v", err)
+			return
+		}
 	}
 	c.ss = ss
 	type cres struct {
@@ -1324,7 +1451,16 @@ func (c *vsCase) startWaiter(side int, what string) *vsWaiter {
 					c.listenIDsAtClose[fmt.Sprint(id.Raw())] = true
 				}
 				c.mu.Unlock()
-				err = c.ss.Close()
+				if c.cfg.viaRun && c.cfg.runCtxClose {
+					// the owner of a Server.Run ends it through its context: Run closes the session and returns
+					// (and, Close being idempotent, closes the session it owns as well: Run does not close a session
+					// that the PEER ended)
+					c.runCancel()
+					<-c.runDone
+					err = c.ss.Close()
+				} else {
+					err = c.ss.Close()
+				}
 			default:
 				err = c.ss.Wait()
 			}
@@ -1997,55 +2133,26 @@ func (c *vsCase) judge() {
 
 	// ---- C05: session bookkeeping, transport Close, onClose, panics
 	if !hang {
-		n := 0
+		// recorded only; decided by the typed Lean monitor (SessMon.sessMon: serverSessionsLeft / clientSessionsLeft / subsLeft)
 		for range c.server.Sessions() {
-			n++
-		}
-		if n != 0 {
-			c.viol("C05: Server.Sessions() still yields %d session(s) after the session ended", n)
+			c.recSsess++
 		}
 		c.client.mu.Lock()
-		nc := len(c.client.sessions)
+		c.recCsess = len(c.client.sessions)
 		c.client.mu.Unlock()
-		if nc != 0 {
-			c.viol("C05: the Client still holds %d session(s) after the session ended", nc)
-		}
 		c.server.mu.Lock()
 		left := len(c.server.toolChangeSubscriptions) + len(c.server.promptChangeSubscriptions) + len(c.server.resourceChangeSubscriptions)
 		for _, m := range c.server.resourceSubscriptions {
 			left += len(m)
 		}
 		c.server.mu.Unlock()
-		if left != 0 {
-			c.viol("C05: the Server still remembers %d subscription(s) of the ended session", left)
-		}
+		c.recSubs = left
 	}
+	c.recHang = hang
+	c.recJudged = true
 	c.mu.Lock()
-	for i, s := range c.side {
-		if s.conn == nil {
-			continue
-		}
-		if s.closeCalls != 1 && !hang {
-			c.viols = append(c.viols, fmt.Sprintf("C05: the %s's transport was closed %d times (want exactly once)", vsSideName[i], s.closeCalls))
-		}
-		for k, n := range s.closeRunning {
-			if n > 0 && !s.closeFailed[k] {
-				c.viols = append(c.viols, fmt.Sprintf("C05: the %s's transport was closed while %d of its handlers were still running and the transport had not failed", vsSideName[i], n))
-			}
-		}
-		closeReturned := false
-		for _, w := range c.waiters {
-			if w.side == i && w.what == "Close" && w.done {
-				closeReturned = true
-			}
-		}
-		if s.onClose > 1 {
-			c.viols = append(c.viols, fmt.Sprintf("C05: %s's onClose ran %d times", vsSessName[i], s.onClose))
-		}
-		if closeReturned && s.onClose == 0 {
-			c.viols = append(c.viols, fmt.Sprintf("C05: %s.Close returned without running onClose", vsSessName[i]))
-		}
-	}
+	// transport Close count, handlers running at Close, IOTransport halves, onClose: recorded only (rec());
+	// decided by the typed Lean monitor (SessMon.sessMon: tcNotOnce / closedRunning / halfOpen / onCloseTwice / onCloseMissed)
 	for _, p := range c.panics {
 		c.viols = append(c.viols, "C05: panic in "+p)
 	}
@@ -2209,48 +2316,9 @@ func (c *vsCase) ssNew() bool {
 
 // judgeWire: C02 on the wire tap of both sides.
 func (c *vsCase) judgeWire() {
-	c.mu.Lock()
-	defer c.mu.Unlock()
-	for i, s := range c.side {
-		type st struct {
-			readSeq int
-			method  string
-			resp    int
-		}
-		reqs := map[string]*st{}
-		var order []string
-		for _, w := range s.tap {
-			switch {
-			case w.dir == 'r' && w.kind == 'c':
-				if reqs[w.id] == nil {
-					reqs[w.id] = &st{readSeq: w.seq, method: w.method}
-					order = append(order, w.id)
-				}
-			case w.dir == 'w' && w.kind == 'r':
-				if !w.ok {
-					continue
-				}
-				q := reqs[w.id]
-				if w.id == "" || q == nil {
-					c.viols = append(c.viols, fmt.Sprintf("C02: the %s wrote a response with id %q that answers no call it had read (a notification got a response?)", vsSideName[i], w.id))
-					continue
-				}
-				q.resp++
-				if q.resp == 2 {
-					c.viols = append(c.viols, fmt.Sprintf("C02: the %s wrote two responses for call id %s (%s)", vsSideName[i], w.id, q.method))
-				}
-			}
-		}
-		if !c.qTaken || !c.qUsable[i] {
-			continue
-		}
-		for _, id := range order {
-			q := reqs[id]
-			if q.readSeq < c.qSeq && q.resp == 0 && q.method != methodSubscriptionsListen {
-				c.viols = append(c.viols, fmt.Sprintf("C02: call id %s (%s) read by the %s while its connection was usable got no response on the wire although every handler had returned", id, q.method, vsSideName[i]))
-			}
-		}
-	}
+	// C02 on the wire taps (a response answers a call read before it, no call answered twice, every call
+	// read before the quiescent point answered): recorded only (rec(): wire) and decided by the typed Lean
+	// monitor SessMon.wireMon (SessClose/Wire.lean; wireMon_complete, sound_w…)
 }
 
 // judgeOrder: C03 for the messages one goroutine issued in sequence.
@@ -2332,6 +2400,54 @@ func (c *vsCase) obs() string {
 	return s
 }
 
+// rec prints the counters of the case for the typed Lean monitor (SessClose/Monitor.lean: SessObs).
+func (c *vsCase) rec() string {
+	c.mu.Lock()
+	defer c.mu.Unlock()
+	b := func(x bool) string {
+		if x {
+			return "1"
+		}
+		return "0"
+	}
+	side := func(p string, i int) string {
+		s := c.side[i]
+		if s == nil {
+			s = &vsSide{}
+		}
+		run := 0
+		for k, n := range s.closeRunning {
+			if n > run && !s.closeFailed[k] {
+				run = n
+			}
+		}
+		cr := false
+		for _, w := range c.waiters {
+			if w.side == i && w.what == "Close" && w.done {
+				cr = true
+			}
+		}
+		return fmt.Sprintf("%sconn=%s %stc=%d %srun=%d %src=%d %swc=%d %soc=%d %scr=%s", p, b(s.conn != nil && c.recJudged), p, s.closeCalls, p, run, p, s.rcClose, p, s.wcClose, p, s.onClose, p, b(cr))
+	}
+	// the wire taps for the typed monitor of C02 (SessClose/Wire.lean: WireObs): "<judge answered>,<qSeq>,<tokens>"
+	wire := func(i int) string {
+		s := c.side[i]
+		toks := []string{b(c.recJudged && c.qTaken && c.qUsable[i]), strconv.Itoa(c.qSeq)}
+		if s != nil && c.recJudged {
+			for _, w := range s.tap {
+				switch {
+				case w.dir == 'r' && w.kind == 'c':
+					toks = append(toks, fmt.Sprintf("r:%s:%d:%s", w.id, w.seq, b(w.method == methodSubscriptionsListen)))
+				case w.dir == 'w' && w.kind == 'r' && w.ok:
+					toks = append(toks, "w:"+w.id)
+				}
+			}
+		}
+		return strings.Join(toks, ",")
+	}
+	return fmt.Sprintf("hang=%s pipe=%s %s %s ssess=%d csess=%d subs=%d viarun=%s runret=%s pid=%s ## %s ## %s", b(c.recHang), b(c.cfg.pipe), side("c.", vsClient), side("s.", vsServer), c.recSsess, c.recCsess, c.recSubs, b(c.cfg.viaRun && c.recJudged), b(c.runReturned), os.Getenv("VERIF_PROPERTY"), wire(vsClient), wire(vsServer))
+}
+
 func (c *vsCase) tagList() []string {
 	var ts []string
 	for t := range c.tags {
@@ -2349,6 +2465,9 @@ func (c *vsCase) forceCleanup() {
 	c.releaseAll()
 	defer c.cancelListens()
 	c.cancelListens()
+	if c.runCancel != nil {
+		c.runCancel()
+	}
 	for _, r := range c.raw {
 		r.Close()
 	}
@@ -2401,7 +2520,7 @@ func vsRunCase(t *testing.T, out *verifOut, id string, seed int64, idx int) {
 	} else {
 		c.tag("violation")
 	}
-	out.line(id, c.op(), obs, c.tagList()...)
+	out.line(id, c.op(), obs+" ## "+c.rec(), c.tagList()...)
 	out.flush()
 	if vsDebug {
 		fmt.Fprintf(os.Stderr, "== %s\n%s\n=> %s\n", c.op(), strings.Join(c.trace, "\n"), obs)
